@@ -38,6 +38,19 @@ pub fn hash_string(filename: &str, hash_type: u32) -> u32 {
     seed1
 }
 
+/// Base encryption key of a file.
+///
+/// The MPQ format derives the key from the *plain* file name, i.e. the part of the archive
+/// name after the last path separator (`\\` or `/`): `Data\\File.bin` and `File.bin` have the
+/// same key. Position/size adjustment (`FIX_KEY`) is applied by the caller.
+pub fn file_key(filename: &str) -> u32 {
+    let plain = filename
+        .rsplit(['\\', '/'])
+        .next()
+        .unwrap_or(filename);
+    hash_string(plain, crate::crypto::types::hash_type::FILE_KEY)
+}
+
 #[cfg(test)]
 mod tests {
     use super::*;
@@ -61,6 +74,15 @@ mod tests {
             hash_string("(block table)", hash_type::FILE_KEY),
             0xEC83B3A3
         );
+    }
+
+    #[test]
+    fn test_file_key_uses_plain_name() {
+        let plain = hash_string("File01.bin", hash_type::FILE_KEY);
+        assert_eq!(file_key("File01.bin"), plain);
+        assert_eq!(file_key("Data\\File01.bin"), plain);
+        assert_eq!(file_key("data/sub/FILE01.BIN"), plain);
+        assert_eq!(file_key("(listfile)"), hash_string("(listfile)", hash_type::FILE_KEY));
     }
 
     #[test]
